@@ -35,8 +35,12 @@ func one(a map[string]string) {
 			fmt.Println(err)
 			continue
 		}
-		ob := c09lab.Run(lab, sp)
-		fmt.Printf("== opts %s err=%q\n  resp=%s\n", o, ob.Err, ob.Raw)
+		spec := c09lab.RunSpec{Opt: o}
+		if a["order"] != "" { // gated completion order: subgraph priority list "root>calc>prov1>prov0"
+			spec = c09lab.ParseRunSpec(o.String() + " order=" + a["order"])
+		}
+		ob := c09lab.RunSpecd(lab, sp, spec)
+		fmt.Printf("== opts %s err=%q\n  resp=%s\n", spec, ob.Err, ob.Raw)
 		for _, q := range ob.Reqs {
 			fmt.Printf("    %s %s %s\n", q.Sub, q.Query, q.Vars)
 		}
